@@ -22,6 +22,14 @@ from pyvc.constructs import ConstructInterface  # noqa
 from pyvc.lemma import LEMMAS  # noqa
 
 
+def _atomic_dump(obj, path):
+    """write JSON so that a concurrent reader sees the old or the new file, never a torn one"""
+    tmp = '%s.tmp%d' % (path, os.getpid())
+    with open(tmp, 'w') as f:
+        json.dump(obj, f, indent=0, sort_keys=True)
+    os.replace(tmp, path)
+
+
 def stable_key(name):
     # path numbers vary with the exploration order; a loop is identified by its static position, not by its text (an edit of the
     # guard or of the loop variable keeps the key)
@@ -598,7 +606,7 @@ def conclude(pid, P, tier, seed, a, t0, src, results, oor, stats, functions, ext
             fcntl.flock(guard, fcntl.LOCK_EX)
             cur = json.load(open(lockp)) if os.path.exists(lockp) else {}
             cur[pid] = {'keys': keys_now, 'count': len(discharged)}
-            json.dump(cur, open(lockp, 'w'), indent=0, sort_keys=True)
+            _atomic_dump(cur, lockp)
             # the local names of every function under contract, in order of first binding (see FnContract.verify: renamed locals)
             loc = {}
             for q, c in list(contract.REGISTRY.items()) + list(contract.GENERIC.items()):
@@ -607,7 +615,7 @@ def conclude(pid, P, tier, seed, a, t0, src, results, oor, stats, functions, ext
                         loc[q] = src.local_order(src.find(q))
                     except Exception:
                         pass
-            json.dump(loc, open(os.path.join(ROOT, 'locals.lock'), 'w'), indent=0, sort_keys=True)
+            _atomic_dump(loc, os.path.join(ROOT, 'locals.lock'))
         os.remove(lockp + '.flock') if os.path.exists(lockp + '.flock') else None
         print('relocked %s: %d obligations, %d stable keys' % (pid, len(discharged), len(keys_now)))
     if not results and not extras.get('tables'):
